@@ -85,7 +85,7 @@ def by_name(name):
 # ---------------------------------------------------------------------------------------------
 # random schemas
 
-OPS = ["", "", "+", "*", "?", "{2}", "{1,2}", "{2,}"]
+OPS = ["", "", "+", "*", "?", "{2}", "{1,2}", "{2,}", "{0,}"]
 
 
 def random_spec(rng):
